@@ -98,7 +98,7 @@ pub fn gen_tree(rng: &mut Rng, opts: &TreeOpts) -> TreeSpec {
         if parent.matches('/').count() >= root.matches('/').count() + 4 {
             continue;
         }
-        let name = *rng.pick(DIR_NAMES);
+        let name = if rng.chance(1, 4) { *rng.pick(&["page", "about", "v1.2"]) } else { *rng.pick(DIR_NAMES) };
         let p = format!("{}/{}", parent, name);
         if dirs.contains(&p) {
             continue;
@@ -114,8 +114,9 @@ pub fn gen_tree(rng: &mut Rng, opts: &TreeOpts) -> TreeSpec {
         let name = if rng.chance(1, 5) { "index.html" } else { *rng.pick(FILE_NAMES) };
         let p = format!("{}/{}", dir, name);
         // exclusions of DESIGN 4.1: nothing next to a directory of the same stem, no duplicates
-        let stem_dir = p.strip_suffix(".html").map(|s| s.to_string());
-        if used.contains(&p) || stem_dir.map(|s| used.contains(&s)).unwrap_or(false) || used.contains(&format!("{}.html", p)) {
+        // (a directory next to <name>.html is allowed: the model knows which of the two cases
+        // the documentation decides)
+        if used.contains(&p) {
             continue;
         }
         let len = pick_size(rng, opts.big_files, opts.request_size);
@@ -219,6 +220,37 @@ pub fn tree_paths(rng: &mut Rng, tree: &TreeSpec) -> Vec<(String, &'static str)>
     out
 }
 
+/// Standard request headers a browser, proxy or tool may send. None of them changes what a
+/// static file server has to answer (no Range, no Origin here), so they can decorate any request.
+pub const BENIGN_HEADERS: &[(&str, &str)] = &[
+    ("Accept", "text/html,application/xhtml+xml,*/*;q=0.8"), ("Accept-Encoding", "gzip, deflate, br"), ("Accept-Language", "en-US,en;q=0.5"),
+    ("User-Agent", "Mozilla/5.0 (X11; Linux x86_64) rws-sim"), ("Connection", "keep-alive"), ("Connection", "close"), ("Cache-Control", "no-cache"),
+    ("Cache-Control", "max-age=0"), ("Pragma", "no-cache"), ("Upgrade-Insecure-Requests", "1"), ("DNT", "1"), ("Sec-GPC", "1"), ("Save-Data", "on"),
+    ("Save-Data", "off"), ("Sec-Fetch-Dest", "document"), ("Sec-Fetch-Mode", "navigate"), ("Sec-Fetch-Site", "cross-site"), ("Sec-Fetch-User", "?1"),
+    ("Sec-CH-UA", "\"Chromium\";v=\"120\""), ("Sec-CH-UA-Mobile", "?1"), ("Sec-CH-UA-Platform", "\"Android\""), ("Device-Memory", "0.5"), ("Downlink", "0.4"),
+    ("ECT", "2g"), ("RTT", "900"), ("Viewport-Width", "320"), ("Width", "320"), ("DPR", "2"), ("Referer", "http://other.example/page"),
+    ("Cookie", "session=abc; theme=dark"), ("Authorization", "Basic dXNlcjpwYXNz"), ("If-None-Match", "\"abc\""), ("If-Modified-Since", "Wed, 21 Oct 2015 07:28:00 GMT"),
+    ("If-Match", "*"), ("If-Unmodified-Since", "Wed, 21 Oct 2015 07:28:00 GMT"), ("If-Range", "\"abc\""), ("X-Forwarded-For", "203.0.113.7"), ("X-Forwarded-Proto", "https"),
+    ("Forwarded", "for=192.0.2.60;proto=http;by=203.0.113.43"), ("Via", "1.1 proxy.example"), ("TE", "trailers"), ("Expect", "100-continue"), ("Max-Forwards", "0"),
+    ("Upgrade", "websocket"), ("X-Requested-With", "XMLHttpRequest"), ("Early-Data", "1"), ("Priority", "u=1, i"), ("Purpose", "prefetch"), ("X-Http-Method-Override", "DELETE"),
+    ("Content-Encoding", "gzip"), ("Transfer-Encoding", "chunked"), ("Accept-Charset", "utf-8"), ("From", "bot@example.org"), ("Host", "other.example:8080"),
+];
+
+/// insert 1..3 dictionary headers after the request line of a well-formed request
+pub fn decorate(rng: &mut Rng, request: &[u8]) -> Vec<u8> {
+    let pos = match crate::util::find(request, b"\r\n") {
+        Some(p) => p + 2,
+        None => return request.to_vec(),
+    };
+    let mut v = request[..pos].to_vec();
+    for _ in 0..rng.range(1, 3) {
+        let (n, val) = *rng.pick(BENIGN_HEADERS);
+        v.extend_from_slice(format!("{}: {}\r\n", n, val).as_bytes());
+    }
+    v.extend_from_slice(&request[pos..]);
+    v
+}
+
 // ------------------------------------------------------------------------------- request mutations
 
 /// One request of the C04 input space built from `base_target` (a path that exists) for a node
@@ -250,7 +282,10 @@ pub fn mutated_request(rng: &mut Rng, base_target: &str, buf: usize) -> (&'stati
         }
         13 => ("target_long", format!("GET /{} HTTP/1.1\r\nHost: h\r\n\r\n", "a".repeat(rng.range(200, buf.max(201) * 2))).into_bytes()),
         14 => ("target_odd", format!("GET {} HTTP/1.1\r\nHost: h\r\n\r\n", rng.pick(&["//a//b", "/%zz", "/?", "/#", "/%", "/a?%", "?x", "#", "/..", "/.", "/:80", "/a b", "/\\..\\x", ":99999999999/", "@x/../../out.txt"])).into_bytes()),
-        15 => ("version_unsupported", format!("GET {} HTTP/9.9\r\nHost: h\r\n\r\n", t).into_bytes()),
+        15 => {
+            let ver = *rng.pick(&["HTTP/9.9", "http/1.1", "HtTp/1.1", "HTTP/1.0", "HTTP/2.0", "HTTP/0.9", "http/1.0", "HTTP/3.0", "HTTP/1.2"]);
+            ("version_variant", format!("GET {} {}\r\nHost: h\r\n\r\n", t, ver).into_bytes())
+        }
         16 => ("version_junk", format!("GET {} HTTP/1.1x\r\nHost: h\r\n\r\n", t).into_bytes()),
         17 => ("version_missing", format!("GET {}\r\nHost: h\r\n\r\n", t).into_bytes()),
         18 => ("line_only_method", b"GET\r\n\r\n".to_vec()),
